@@ -51,8 +51,9 @@ def cases(tier, seed):
                     "tier": tier})
     synth = ["S_ideal", "S_zlin", "S_zdip", "S_zdip_desc"]
     shipped = ["T_ship_gas", "T_hay"] + (["T_lib"] if tier == "thorough" else [])
-    for tab, r, sc in itertools.product(synth + shipped, ratios, ["scalar", "stepdown", "downup"]):
-        p_i = 8000.0
+    for tab, r, sc, p_i in itertools.product(synth + shipped, ratios, ["scalar", "stepdown", "downup"], [8000.0, 6033.3]):
+        if p_i != 8000.0 and (sc != "scalar" or r not in (0.5, 0.99) or tab.endswith("_desc")):
+            continue  # an initial pressure between table rows, on a reduced sub-lattice
         lo, hi = tables.table_range(tab)
         if not lo <= r * p_i:
             continue
@@ -139,6 +140,13 @@ def evaluate(case):
                     viol.append(V("mass-balance/refinement", f"gap does not shrink under refinement: "
                                   f"{[round(g, 5) for g in G]} (delta={delta:.3g})", case=case, observed=G))
                     break
+            # first-order Richardson estimate of the gap's limit under refinement: must vanish
+            lim = 2 * G[-1] - G[-2]
+            if lim > 0.6 * G[-1] + DELTA_W * delta + 2e-4:
+                viol.append(V("mass-balance/limit", f"the gap extrapolates to {lim:.4g} of the ceiling under refinement "
+                              f"(ladder {[round(g, 5) for g in G]}), i.e. it does not shrink to zero "
+                              f"(measured <= 0.53 G_last on consistent tables)", case=case, observed=lim,
+                              tol=0.6 * G[-1] + DELTA_W * delta + 2e-4))
             outcome.append("gap-ladder")
     nsteps = sum(nt for _, nt in rungs)
     return {"violations": viol, "G": G, "delta": delta, "outcome": outcome or ["ideal-plateau"],
